@@ -356,6 +356,9 @@ func runC09(c *eng.Ctx) {
 	ruleStreamConfigPlumbing(c, "RetentionMaxAge", "RetentionMaxBytes", "RetentionMaxMessages", "CleanerInterval", "SegmentMaxBytes", "SegmentMaxAge")
 	ruleRetentionOptionsReachCleaner(c)
 	c.Floor(22)
+	// ---- R15.8 (shared) the configuration keys this property's switches hang on reach their fields
+	ruleConfigWiring(c, "R15.8")
+
 }
 
 // allCmpExact counts the If conditions in fn that compare a with b and reports whether every one of them uses exactly rel
